@@ -69,10 +69,12 @@ func (m *mapStructDesc) Set(abiType uintptr, sd *structDesc) {
 	for i := range items {
 		if items[i].abiType == abiType {
 			items[i].sd = sd
+			vh(5, abiType, uintptr(len(items)), 0)
 			m.slots[bk].Store(&items)
 			return
 		}
 	}
 	items = append(items, mapStructDescItem{abiType: abiType, sd: sd})
+	vh(5, abiType, uintptr(len(items)), 0)
 	m.slots[bk].Store(&items)
 }
